@@ -114,8 +114,10 @@ CHECKS["C04"] = {
     "technique": "metamorphic perturbation of data dated after a cut (implementation and model) + model/implementation correspondence; partial machine-checked theorems (Coq/Rocq): engine-level no-look-ahead for trees of any depth, window functions of the algos",
     "text": "Partial theorems, axiom-free and for every number instance (so bit for bit on floats): (engine) SecurityBase.update and its coupon / holding-cost tails "
             "at row i commute with replacing prices, bid/offer, coupons and holding costs by any columns with the same row i; so does StrategyBase.update on a tree of "
-            "any depth; hence any sequence of updates to dates <= t yields the same recorded numbers for any two data sets agreeing up to t (under a stated commutation "
-            "hypothesis on the paper step of sub-strategies, which a tree of securities never calls); (algos) the tradability filter reads only the current row of the "
+            "any depth; hence any sequence of updates to dates <= t yields the same recorded numbers for any two data sets agreeing up to t; transact and allocate (sizing search "
+            "included), allocate down a whole tree, flatten, root.update with the bankruptcy test, liquidation and nested refresh commute too; by induction on "
+            "the nesting level so do the paper copies of sub-strategies, and Backtest.run's whole date loop — PROVIDED Strategy.run (the algos) commutes and keeps "
+            "columns and clock, which is assumed (RUNS / RUNK; satisfied by bare StrategyBase trees), not proved: the engine adds no look-ahead of its own; (algos) the tradability filter reads only the current row of the "
             "universe, lookback windows never reach past the current row, and window "
             "data counts are functions of the data prefix. The whole-run statement over every stock algo is decided by (a) perturbation pairs on the implementation: every "
             "generated backtest is re-run with every supplied value dated after a random cut replaced, and all history rows and per-run temp traces up to the cut must be "
